@@ -80,7 +80,7 @@ def obligations(tier, scratch):
                     for vt, extra in variants:
                         name = f"same{seed}_s{session:02x}_{sid:02x}_n{n}{vt}"
                         src.append(SAME.format(name=name, n=n - 1, seed=seed, session=session, sid=sid, extra=extra))
-                        obs.append({"name": name, "module_path": path, "function": name, "cap": 400, "opaque": True, "twin_cap": 60,
+                        obs.append({"name": name, "module_path": path, "function": name, "cap": 400 if n < 4 else 1500, "opaque": True, "twin_cap": 60,
                                     "meta": {"real_seed": seed, "session": session, "service_id": hex(sid), "request_len": n}})
     src.append('''
 def rng_seeding(seed: int, session: int, other_seed: int, other_session: int) -> bool:
